@@ -261,6 +261,20 @@ func reportProblem(c *world.Case, v *ref.Verdict) string {
 	if err == nil {
 		return "no TCB level matches, yet SupportedTcbLevelsFromCollateral returned a level and a nil error"
 	}
+	// the same through an options value that successfully verified the unbroken twin just before
+	if c.TwinRef != nil {
+		sh := &verify.Options{}
+		tw := mon.RunVerifyShared(c.TwinRef, sh)
+		_ = mon.RunVerifyShared(c, sh)
+		var err2 error
+		pv, st := mon.Guard(func() { _, _, err2 = verify.SupportedTcbLevelsFromCollateral(m, sh) })
+		if pv != "" {
+			return "reporting API panics through a re-used options value: " + pv + "\n" + st
+		}
+		if err2 == nil && tw.Accepted {
+			return "no TCB level matches this quote, yet after an earlier successful verification through the same options value SupportedTcbLevelsFromCollateral returned a level and a nil error (the earlier quote's level)"
+		}
+	}
 	return ""
 }
 
@@ -353,9 +367,8 @@ func c04(x *mon.Ctx) {
 			param += fmt.Sprint("#", i)
 		}
 		c := c04Case(bases[j.k], x.Rand(fmt.Sprint("c", i)), j.lv, j.mod, j.ident, j.class, param)
-		if i%8 == 0 {
-			c.TwinRef = twins[j.k] // an eighth of the configurations also goes through re-used options values
-		}
+		c.TwinRef = twins[j.k]
+		c.ShadowSkip = i%8 != 0 // an eighth of the configurations also goes through the generic re-used-options shadow run
 		if j.ident == "fmspc-mismatch" {
 			// the TCB Info is served under the URL of the certificate's FMSPC; its content names another one
 		}
